@@ -98,6 +98,12 @@ pub mod yaml;
 /// Text processing utilities (UTF-8 validation, etc.).
 pub mod text;
 
+/// Verification hooks: re-exports of crate-private kernels for out-of-tree
+/// solver harnesses. Only present with the non-default `verif-hooks` feature.
+#[cfg(feature = "verif-hooks")]
+#[doc(hidden)]
+pub mod verif_hooks;
+
 // =============================================================================
 // Public re-exports (convenience + backward compatibility)
 // =============================================================================
